@@ -69,7 +69,7 @@ pub mod processes {
         #[verifier::external_body] pub const fn pgid(&self) -> (r: Option<i32>) ensures r == self.pgid_spec() { unimplemented!() }
     }
 }
-#[verifier::external_body] pub struct ExecutionResult { _p: u8 }
+// ExecutionResult and its kernel: extracted from results.rs by the unit (units/common.py results_items)
 #[verifier::external_body] pub struct TaskHandle { _p: u8 }
 // projection of results.rs ExecutionSpawnResult (variants checked)
 pub enum ExecutionSpawnResult { Completed(ExecutionResult), StartedProcess(processes::ChildProcess), StartedTask(TaskHandle) }
@@ -114,6 +114,12 @@ pub open spec fn stage_ok_at(t: Seq<StageEv>, i: int, p: ast::Pipeline, params: 
     &&& (i < n - 1 ==> t[i].stdout is Some && t[i].stdout->Some_0.is_write_end())
     &&& (i > 0 ==> t[i].stdin is Some && t[i].stdin->Some_0.is_read_end() && t[i - 1].stdout is Some
             && t[i].stdin->Some_0.pipe_id() == t[i - 1].stdout->Some_0.pipe_id())   // adjacent stages share one pipe
+}
+// C02: a stage that ran in its own subshell cannot steer the shell that waits for it (`true | exit 3`, `true | break`): if it is
+// already complete when the launch returns, only its exit status is kept.  (A builtin started as a task in an owned shell is
+// stripped inside that task: commands.rs execute_via_builtin_in_owned_shell, not covered here.)
+pub open spec fn result_confined(e: StageEv, r: ExecutionSpawnResult) -> bool {
+    (e.own_shell && r is Completed) ==> r->Completed_0.next_control_flow is Normal
 }
 // the first k stage launches t[0..k) of pipeline p are as specified
 pub open spec fn stages_ok(t: Seq<StageEv>, k: int, p: ast::Pipeline, params: ExecutionParameters, o: RuntimeOptions) -> bool {
